@@ -97,10 +97,33 @@ def run_in_state(prog, fn: Function, st, config: Optional[Dict[str, T]] =
                 return cur.op != "deleted"
             if name in state:
                 return state[name]
+        # the other cache protocol: a view that is not materialised holds
+        # None (`self._x is None` is `not hasattr(self, "_x")`)
+        if t.op == "cmp" and t.args[0] in ("Is", "IsNot") and \
+                t.args[2] is tm.NONE:
+            x = t.args[1]
+            present = None
+            if x.op == "deleted":
+                present = False
+            elif x.op == "attr" and x.args[0] is selfp and \
+                    x.args[1] in state:
+                cur = it.attrs.get((selfp, x.args[1]))
+                present = state[x.args[1]] if cur is None else \
+                    cur.op != "deleted"
+            if present is not None:
+                return present == (t.args[0] == "IsNot")
         if extra_assume is not None:
             return extra_assume(t)
         return None
     it.assume = assume
+    store = it._store_attr
+
+    def store_view(base: T, name: str, v: T, live: T):
+        # `self._x = None` un-materialises the view like `del self._x`
+        if base is selfp and name in state and v is tm.NONE:
+            v = T("deleted")
+        store(base, name, v, live)
+    it._store_attr = store_view
     traj_mod = fn.module.name
 
     def inline(f: Function) -> bool:
@@ -365,6 +388,8 @@ def check(ctx):
     r = results[f.qualname]
     for e in r.of_kind("setattr"):
         n = e.data["name"]
+        if n in VIEWS and e.data["value"] is tm.NONE:
+            continue       # "not materialised yet" marker before the stores
         if n in VIEWS:
             src = {P: "positions_xyz", Q: "orientations_quat_wxyz",
                    M: "poses_se3"}[n]
